@@ -190,6 +190,9 @@ def _rio_reproject(
 
     def _alias_or_convert(arr: np.ndarray) -> Tuple[np.ndarray, bool]:
         if arr.dtype.name not in dtype_remap:
+            if not arr.dtype.isnative:
+                # GDAL reads and writes buffers in native byte order
+                return arr.astype(arr.dtype.newbyteorder("=")), False
             return arr, False
         wk_dtype = dtype_remap[arr.dtype.name]
         if arr.dtype.name == "bool":
